@@ -80,6 +80,14 @@ def run(ctx):
             # the Err arm returns an error without touching pools
             reach = rl.reach([d for _, d in errE])
             r2.check(not [c for c in fcc if c.block in reach], "reload:err-arm-inert", "the parse-error arm never reaches from_config", "the parse-error arm reaches from_config")
+    if rl:
+        # whether a file takes effect is decided by reading it: reload_config parses on every call, no return comes earlier
+        pc = rl.calls("pgcat::config::parse")
+        rets = [bb for bb, blk in enumerate(rl.blocks) if blk["term"]["k"] == "return"]
+        w = rl.uncrossed_path([0], rets, blocks=[c.block for c in pc]) if pc else [0]
+        r2.check(bool(pc) and w is None, "reload:always-parses", "reload_config returns only after having parsed the file",
+                 "reload_config can return without reading the file (a shortcut on something other than its content, e.g. the modification time): a valid, changed file that a rollback or `cp -p` put in place is silently ignored, "
+                 "RELOAD answers as if done while CONFIG and POOLS stay stale", "", w and rl.describe_path(w))
     rcallers = F.callers_of("pgcat::config::reload_config")
     r2.check(set(rcallers) <= {"bin:pgcat::main::{closure#1}", "bin:pgcat::main::{closure#1}::{closure#2}", "pgcat::admin::reload::{closure#0}"}, "reload-callers", "reload_config is called by SIGHUP, autoreload and admin RELOAD only", "reload_config callers: %s" % rcallers)
 
